@@ -38,6 +38,10 @@ type EarlyConn struct {
 	handshakeOnce sync.Once
 	handshakeErr  error
 	handshaked    chan struct{}
+
+	// Read deadline set by the user. The handshake uses its own
+	// read deadline and restores this one afterwards.
+	userReadDeadline atomic.Pointer[time.Time]
 }
 
 // NewEarlyConn creates a new EarlyConn.
@@ -89,6 +93,18 @@ func (c *EarlyConn) Write(b []byte) (n int, err error) {
 	return c.Conn.Write(b)
 }
 
+// SetDeadline sets the read and write deadlines of the connection.
+func (c *EarlyConn) SetDeadline(t time.Time) error {
+	c.userReadDeadline.Store(&t)
+	return c.Conn.SetDeadline(t)
+}
+
+// SetReadDeadline sets the read deadline of the connection.
+func (c *EarlyConn) SetReadDeadline(t time.Time) error {
+	c.userReadDeadline.Store(&t)
+	return c.Conn.SetReadDeadline(t)
+}
+
 func (c *EarlyConn) Close() error {
 	c.handshakeOnce.Do(func() {
 		close(c.handshaked) // unblock Read() method
@@ -134,8 +150,19 @@ func (c *EarlyConn) doHandshakeAndWrite(b []byte) error {
 	}
 
 	// Read the response.
-	c.Conn.SetReadDeadline(time.Now().Add(10 * time.Second))
-	defer c.Conn.SetReadDeadline(time.Time{})
+	// The read deadline set by the user stays in effect after the handshake.
+	handshakeDeadline := time.Now().Add(10 * time.Second)
+	if t := c.userReadDeadline.Load(); t != nil && !t.IsZero() && t.Before(handshakeDeadline) {
+		handshakeDeadline = *t
+	}
+	c.Conn.SetReadDeadline(handshakeDeadline)
+	defer func() {
+		if t := c.userReadDeadline.Load(); t != nil {
+			c.Conn.SetReadDeadline(*t)
+		} else {
+			c.Conn.SetReadDeadline(time.Time{})
+		}
+	}()
 
 	var resp model.Response
 	if err := resp.ReadFromSocks5(c.Conn); err != nil {
